@@ -37,6 +37,7 @@ void exec_c36(const Plan& p, Ctx& ctx) {
     if (!d.wait_ready()) { ctx.violate("C36.setup_failed", "daemon did not answer PING: " + sk::info(d.pid).exit_detail); d.stop(); return; }
     const std::string host = ip_text(d.host);
     Actor setup;
+    setup.scripted = true;
     setup.start("setup", sk::ip(10, 0, 9, 1));
     pr::Manifest stored;
     std::string stored_uri;
@@ -76,6 +77,7 @@ void exec_c36(const Plan& p, Ctx& ctx) {
     for (int c = 0; c < static_cast<int>(p.knob("control_clients", 1)); ++c) {
         actors.push_back(std::make_unique<Actor>());
         Actor& a = *actors.back();
+        a.scripted = true;
         a.start("ctl" + std::to_string(c), sk::ip(10, 0, 9, static_cast<std::uint8_t>(20 + c)));
         tickets.push_back(a.post([&, c] {
             sk::Rng g(mix + 100 + static_cast<std::uint64_t>(c));
@@ -98,6 +100,7 @@ void exec_c36(const Plan& p, Ctx& ctx) {
     for (int k = 0; k < static_cast<int>(p.knob("peers", 2)); ++k) {
         actors.push_back(std::make_unique<Actor>());
         Actor& a = *actors.back();
+        a.scripted = true;
         a.start("peer" + std::to_string(k), sk::ip(10, 0, 9, static_cast<std::uint8_t>(40 + k)));
         tickets.push_back(a.post([&, k] {
             sk::Rng g(mix + 500 + static_cast<std::uint64_t>(k));
@@ -151,7 +154,7 @@ Scenario make_c36() {
                      "reports whose location is thread-local storage are ignored: fibers share one OS thread's TLS, which real threads would not"};
     s.rule = "plan = network/scheduler knobs, key rotation interval, 1..3 transport peers, 1..2 control clients, 3..8 actions each, action mix seed; non-trivial = every run (concurrent control + transport + tick); distinct = plan hash";
     s.gen = gen_c36; s.exec = exec_c36; s.kernel_knobs = w4_knobs;
-    s.quick_runs = 600; s.thorough_runs = 30000; s.quick_secs = 50; s.thorough_secs = 1200;
+    s.quick_runs = 1200; s.thorough_runs = 30000; s.quick_secs = 55; s.thorough_secs = 1200;
     return s;
 }
 Registrar reg_c36(make_c36);
